@@ -1,0 +1,111 @@
+//go:build verif
+
+package scheduler
+
+import (
+	"context"
+	"reflect"
+	"sync/atomic"
+	"unsafe"
+)
+
+// VerifEvent is one observation reported to VerifHook. It exists only under
+// the "verif" build tag and is used by the verification harness kept outside
+// this repository. Reporting an event does not change scheduler state.
+type VerifEvent struct {
+	Kind    int
+	Sched   uintptr // identity of the scheduler (its ready channel)
+	Worker  uintptr // identity of the worker goroutine, 0 if not a worker event
+	Job     *ScheduledJob
+	Err     error
+	State   State
+	Ongoing int
+
+	// Set for VerifNewSched.
+	Concurrency     int
+	ContinueOnError bool
+}
+
+// Kinds, exported for the harness.
+const (
+	VerifWStart      = verifWStart
+	VerifWGot        = verifWGot
+	VerifWSkip       = verifWSkip
+	VerifWRun        = verifWRun
+	VerifWEnd        = verifWEnd
+	VerifWPrePost    = verifWPrePost
+	VerifWPosted     = verifWPosted
+	VerifWDie        = verifWDie
+	VerifWExit       = verifWExit
+	VerifCEnqSend    = verifCEnqSend
+	VerifCEnqSent    = verifCEnqSent
+	VerifCWaitCalled = verifCWaitCalled
+	VerifCWaitRetCtx = verifCWaitRetCtx
+	VerifCWaitRetFin = verifCWaitRetFin
+	VerifLIter       = verifLIter
+	VerifLDispatched = verifLDispatched
+	VerifLEnqRecv    = verifLEnqRecv
+	VerifLEnqClosed  = verifLEnqClosed
+	VerifLDoneRecv   = verifLDoneRecv
+	VerifLTick       = verifLTick
+	VerifLReturn     = verifLReturn
+	VerifLDrained    = verifLDrained
+	VerifLFinished   = verifLFinished
+	VerifNewSched    = verifNewSched
+)
+
+// VerifHook, when non-nil, receives every event. Set it before creating any
+// scheduler and do not change it while schedulers are running.
+var VerifHook func(VerifEvent)
+
+// VerifErrJobInvalid is the internal sentinel, for comparison by identity.
+var VerifErrJobInvalid = errJobInvalid
+
+// VerifJobDeps returns the dependencies and context a job was enqueued with
+// (the fields that are read-only after Enqueue).
+func VerifJobDeps(j *ScheduledJob) ([]*ScheduledJob, context.Context) {
+	return j.deps, j.ctx
+}
+
+func verifChanID(c interface{}) uintptr { return reflect.ValueOf(c).Pointer() }
+
+func verifNew(s *Scheduler) {
+	if h := VerifHook; h != nil {
+		h(VerifEvent{
+			Kind: verifNewSched, Sched: verifChanID(s.readyc),
+			Concurrency: s.concurrency, ContinueOnError: s.continueOnError,
+		})
+	}
+}
+
+func verifCaller(kind int, s *Scheduler, j *ScheduledJob, err error) {
+	if h := VerifHook; h != nil {
+		h(VerifEvent{Kind: kind, Sched: verifChanID(s.readyc), Job: j, Err: err})
+	}
+}
+
+func verifLoop(kind int, s *Scheduler, j *ScheduledJob, err error) {
+	if h := VerifHook; h != nil {
+		h(VerifEvent{Kind: kind, Sched: verifChanID(s.readyc), Job: j, Err: err})
+	}
+}
+
+func verifTick(s *Scheduler, st State, ongoing int) {
+	if h := VerifHook; h != nil {
+		h(VerifEvent{Kind: verifLTick, Sched: verifChanID(s.readyc), State: st, Ongoing: ongoing})
+	}
+}
+
+// verifEscape forces the worker-local variable whose address identifies a
+// worker goroutine onto the heap, so that the address is stable.
+var verifEscape unsafe.Pointer
+
+func verifWorker(kind int, readyc <-chan *ScheduledJob, w *bool, j *ScheduledJob, err error) {
+	if h := VerifHook; h != nil {
+		atomic.StorePointer(&verifEscape, unsafe.Pointer(w))
+		h(VerifEvent{
+			Kind: kind, Sched: verifChanID(readyc),
+			Worker: uintptr(unsafe.Pointer(w)), Job: j, Err: err,
+		})
+	}
+}
